@@ -59,8 +59,8 @@ prop('C01',
            'frame as given. Key lemmas L3/L5/L6 make the bounds exact for every pair of ids / adjacent contexts. For every input and '
            'store state; storage layouts inside fjall and concurrent writers are assumed / out of scope.',
      technique=TECH,
-     units=['verus:keys', 'verus:store_ops', 'verus:read_ops'],
-     obligations=['keys.ctx_key.*', 'keys.range_end.next_ctx', 'keys.iter_ctx.*', 'keys.iter_all.*',
+     units=['verus:keys', 'verus:store_ops', 'verus:read_ops', 'verus:lockstep'],
+     obligations=['lemma.L3.*', 'lemma.L5.*', 'lemma.L6.*', 'lemma.L7.*', 'keys.ctx_key.*', 'keys.range_end.next_ctx', 'keys.iter_ctx.*', 'keys.iter_all.*',
                   'store.iter_frames.*', 'store.read_sync.*', 'store.get.*', 'store.append.fresh_id', 'store.append.frame_as_given',
                   'store.append.stored', 'store.insert_frame.three_entries', 'store.remove.three_tombstones',
                   'store_ops.Store::iter_frames.body', 'store_ops.Store::get.body', 'store_ops.read_sync_filter.body',
@@ -99,8 +99,8 @@ prop('C05',
            'write and delete exactly the three entries of a frame; lemmas L1-L6 make prefix and range scans exact for prefix-related '
            'topics and adjacent contexts.',
      technique=TECH,
-     units=['verus:keys', 'verus:keys_max', 'verus:store_ops'],
-     obligations=['keys.prefix.*', 'keys.from_frame.*', 'keys.id_from_key.*', 'keys.ctx_key.*', 'keys.range_end.*',
+     units=['verus:keys', 'verus:keys_max', 'verus:store_ops', 'verus:lockstep'],
+     obligations=['lemma.L1.*', 'lemma.L3.*', 'lemma.L4.*', 'lemma.L7.*', 'lemma.L8.*', 'keys.prefix.*', 'keys.from_frame.*', 'keys.id_from_key.*', 'keys.ctx_key.*', 'keys.range_end.*',
                   'keys.iter_ctx.*', 'keys.iter_all.*', 'keys.*.body', 'store.head.*', 'store.iter_frames.*',
                   'store.get.*', 'store.insert_frame.three_entries', 'store.insert_frame.nul_*', 'store.remove.three_tombstones',
                   'store.remove.absent_noop', 'store.remove.nothing_else_touched', 'store.append.reject*', 'store.append.stored',
@@ -135,7 +135,7 @@ prop('C08',
            'of the frame it read.',
      technique=TECH,
      units=['verus:expiry', 'verus:store_ops', 'verus:keys'],
-     obligations=['expiry.is_expired.*', 'expiry.is_expired.body', 'store.read_sync.*', 'store.gc_head.*', 'store.append.store_then_broadcast',
+     obligations=['lemma.L1.*', 'lemma.L4.*', 'expiry.is_expired.*', 'expiry.is_expired.body', 'store.read_sync.*', 'store.gc_head.*', 'store.append.store_then_broadcast',
                   'store.append.ephemeral_not_stored', 'store.remove.three_tombstones', 'store.remove.nothing_else_touched',
                   'keys.prefix.layout', 'keys.from_frame.layout', 'keys.id_from_key.last16',
                   'store_ops.gc_head_arm.body', 'store_ops.read_sync_filter.body'],
@@ -215,7 +215,7 @@ prop('C06',
            'context; GET /head?follow subscribes in the requested context.',
      technique=TECH,
      units=['verus:keys', 'verus:store_ops', 'verus:read_ops', 'verus:handler_ops', 'verus:api_ops'],
-     obligations=['keys.iter_ctx.*', 'keys.range_end.next_ctx', 'keys.prefix.layout', 'keys.ctx_key.layout', 'store.iter_frames.*', 'store.head.*',
+     obligations=['lemma.L1.*', 'lemma.L5.*', 'keys.iter_ctx.*', 'keys.range_end.next_ctx', 'keys.prefix.layout', 'keys.ctx_key.layout', 'store.iter_frames.*', 'store.head.*',
                   'read.live.forwards_exactly_wanted_in_order', 'read.live.post', 'handler.options.own_context', 'handler.stamp.*',
                   'api.head_follow.*', 'handler_ops.stamp_loop.body', 'api_ops.head_follow_options.body'],
      trusted=STORE_TRUST + ['channels'],
